@@ -4002,6 +4002,14 @@ def fix_if_return(source: str) -> str:
     yield from processing.find_replace(source, find, replace, transaction=2)
 
 
+def _skip_elif_rewrites(source: str, rewrites: Iterable[Tuple]) -> Iterable[Tuple]:
+    """Replacing an elif clause by a plain statement would detach it from its if-chain."""
+    for rewrite in rewrites:
+        replacement_range = rewrite[0]
+        if not source[replacement_range.start : replacement_range.end].startswith("elif"):
+            yield rewrite
+
+
 @processing.fix
 def fix_if_assign(source: str) -> str:
     find = """
@@ -4012,7 +4020,9 @@ def fix_if_assign(source: str) -> str:
     """
     replace = "{{variable}} = {{condition}}"
 
-    yield from processing.find_replace(source, find, replace, transaction=0)
+    yield from _skip_elif_rewrites(
+        source, processing.find_replace(source, find, replace, transaction=0)
+    )
 
     find = """
     if {{condition}}:
@@ -4022,7 +4032,10 @@ def fix_if_assign(source: str) -> str:
     """
     replace = "{{variable}} = not ({{condition}})"
 
-    yield from processing.find_replace(source, find, replace, condition=ast.BoolOp, transaction=1)
+    yield from _skip_elif_rewrites(
+        source,
+        processing.find_replace(source, find, replace, condition=ast.BoolOp, transaction=1),
+    )
 
     find = """
     if {{condition}}:
@@ -4032,7 +4045,9 @@ def fix_if_assign(source: str) -> str:
     """
     replace = "{{variable}} = not {{condition}}"
 
-    yield from processing.find_replace(source, find, replace, transaction=2)
+    yield from _skip_elif_rewrites(
+        source, processing.find_replace(source, find, replace, transaction=2)
+    )
 
 
 @processing.fix
